@@ -176,6 +176,12 @@ fn conv_expr(e: &syn::Expr) -> Value {
             }
             json!({"k":"for","pat":conv_pat(&f.pat),"iter":conv_expr(&f.expr),"body":conv_block(&f.body),"ln":l})
         }
+        While(w) => {
+            if w.label.is_some() {
+                return unsupported(e);
+            }
+            json!({"k":"while","cond":conv_expr(&w.cond),"body":conv_block(&w.body),"ln":l})
+        }
         Return(r) => json!({"k":"return","e":r.expr.as_ref().map(|x| conv_expr(x)).unwrap_or(Value::Null),"ln":l}),
         Break(b) => {
             if b.label.is_some() || b.expr.is_some() {
